@@ -115,6 +115,21 @@ def translate(path):
                     isinstance(x, ast.Attribute) and x.attr.startswith("__all_members") for x in ast.walk(n.func.value)) \
                     and n.func.attr in ("append", "extend", "update", "setdefault", "insert", "__setitem__"):
                 cache_writes.append("call: " + src(n))
+    # calls anywhere in the class that change process-wide state of the warnings / logging machinery (the model: add() and the
+    # factory report through warnings.warn and logger records only, they configure nothing)
+    state_calls = []
+    for n in sorted((x for x in ast.walk(cls[0]) if isinstance(x, ast.Call)), key=lambda x: (x.lineno, x.col_offset)):
+        f = n.func
+        name = f.attr if isinstance(f, ast.Attribute) else f.id if isinstance(f, ast.Name) else ""
+        if name in ("filterwarnings", "simplefilter", "resetwarnings", "showwarning", "disable", "basicConfig", "captureWarnings",
+                    "setrecursionlimit", "_filters_mutated") or (isinstance(f, ast.Attribute) and src(f.value) in ("warnings.filters",)):
+            state_calls.append(src(n))
+    for n in ast.walk(cls[0]):
+        if isinstance(n, (ast.Assign, ast.AugAssign)) and any(
+                isinstance(x, ast.Attribute) and isinstance(x.value, ast.Name) and x.value.id in ("warnings", "logging", "sys")
+                for t in (n.targets if isinstance(n, ast.Assign) else [n.target]) for x in ast.walk(t)):
+            state_calls.append(src(n))
+    res["state_calls"] = state_calls
     res["cache_writes"] = cache_writes
     res["arg_check"] = arg_check
     res["hint_tests"] = tests
